@@ -26,6 +26,26 @@ class Obligation:
         return d
 
 
+class Only:
+    """View of a Ctx that keeps only the obligations of a shared rule that are necessary conditions of the property
+    borrowing it: ``Only(ctx, ('owner', 'recorded'), floor=2)`` records an obligation iff its key contains one of the
+    fragments; everything else of the Ctx is passed through."""
+
+    def __init__(self, ctx, fragments, floor=1, doc=None):
+        self._ctx, self._fragments, self._floor, self._doc = ctx, tuple(fragments), floor, doc
+
+    def __getattr__(self, name):
+        return getattr(self._ctx, name)
+
+    def rule(self, rule, doc, floor=1):
+        self._ctx.rule(rule, (self._doc or doc) + '  [only: %s]' % ', '.join(self._fragments), floor=self._floor)
+
+    def ob(self, rule, key, ok, *a, **k):
+        if any(f in key for f in self._fragments):
+            return self._ctx.ob(rule, key, ok, *a, **k)
+        return bool(ok)
+
+
 class Ctx:
     """One run of one property's rules over one model."""
 
